@@ -144,10 +144,12 @@ func es(err error) string {
 	return strings.ReplaceAll(err.Error(), "\n", " ")
 }
 
-func (r *recorder) Print(l *label.Label, line string) { r.add(Event{Kind: "Print", Label: ls(l), Line: line}) }
-func (r *recorder) ModuleLoading(l *label.Label)      { r.add(Event{Kind: "ModuleLoading", Label: ls(l)}) }
-func (r *recorder) LoadDone(err error)                { r.add(Event{Kind: "LoadDone", Err: es(err)}) }
-func (r *recorder) TargetUpToDate(l *label.Label)     { r.add(Event{Kind: "UpToDate", Label: ls(l)}) }
+func (r *recorder) Print(l *label.Label, line string) {
+	r.add(Event{Kind: "Print", Label: ls(l), Line: line})
+}
+func (r *recorder) ModuleLoading(l *label.Label)  { r.add(Event{Kind: "ModuleLoading", Label: ls(l)}) }
+func (r *recorder) LoadDone(err error)            { r.add(Event{Kind: "LoadDone", Err: es(err)}) }
+func (r *recorder) TargetUpToDate(l *label.Label) { r.add(Event{Kind: "UpToDate", Label: ls(l)}) }
 func (r *recorder) TargetEvaluating(l *label.Label, reason string, d diff.ValueDiff) {
 	r.add(Event{Kind: "Evaluating", Label: ls(l), Reason: reason, Diff: d})
 }
